@@ -24,6 +24,9 @@
 (* ClosedOnlyWait (_close only waits for - never terminates - a worker whose end a run has  *)
 (* already recorded), StaleOverwrite (the count of in-flight answers of abandoned runs is   *)
 (* overwritten instead of accumulated).                                                     *)
+(* plan.ctimeout = "none": Pool(close_timeout=None) - clean-up waits as long as it takes   *)
+(* (no history with a stuck or lingering worker is generated for it: its close would not    *)
+(* return).  NoneTimeoutRejected: the constructor refuses close_timeout=None.               *)
 (* "runl": a run whose poison input makes the target leave a non-daemon thread behind and   *)
 (* then fail: the worker reports its end (its id goes to _closed) while its PROCESS lingers *)
 (* (modelled as stuck /\ key \in closedIds: it needs terminate to go away).  "runabort":    *)
@@ -41,7 +44,7 @@
 (* at the very end of _close), so a later close()/terminate() does the clean-up again.     *)
 EXTENDS Naturals, Sequences, FiniteSets, TLC, PoolLifeProps
 
-CONSTANTS Fix, MaxOps, MaxW, Kinds, Plans, Free, ReuseKeys, NoReinit, NoRekey, EarlyFlag, StickyGuard, EarlyUnreg, ClosedOnlyWait, StaleOverwrite, Hist
+CONSTANTS Fix, MaxOps, MaxW, Kinds, Plans, Free, ReuseKeys, NoReinit, NoRekey, EarlyFlag, StickyGuard, EarlyUnreg, ClosedOnlyWait, StaleOverwrite, NoneTimeoutRejected, Hist
 
 VARIABLES plan,       \* scenario: [id, force ("none" | "false"), ops]; ops is followed when Free = FALSE
           ws,         \* workers ever created: sequence of [kind, os, stuck, key, owned]
@@ -56,6 +59,7 @@ VARIABLES plan,       \* scenario: [id, force ("none" | "false"), ops]; ops is f
 vars == <<plan, ans, ws, reg, closedIds, retries, poolClosed, nextKey, nrun, restarted, pc, todo, graceful, nops, steps, h>>
 
 force == plan.force
+NoStuckAllowed == plan.ctimeout = "none"        \* wait(None) on a stuck worker never returns
 Go(name) == Free \/ (Len(h) < Len(plan.ops) /\ plan.ops[Len(h) + 1] = name)
 W == 1..Len(ws)
 Keys == {kw[1] : kw \in reg}
@@ -115,7 +119,7 @@ AddDup(o) ==                                \* the new worker's id collides with
 Blocking == ~poolClosed /\ \E w \in RegW : Alive(w) /\ ws[w].stuck /\ ws[w].key \notin closedIds    \* (a closed pool refuses run at once)
 Usable(w) == w \in RegW /\ ws[w].key \notin closedIds          \* run() looks at worker.id, the registry key only matters for results
 Run(name) ==                                \* name: "run" | "runp" (poison: the worker dies) | "runl" (poison: the worker's process lingers)
-  /\ Idle /\ ~Blocking /\ Go(name)
+  /\ Idle /\ ~Blocking /\ Go(name) /\ (name = "runl" => ~NoStuckAllowed)
   /\ IF poolClosed
      THEN /\ Done(name, Obs(name, "raised", "F", 0, 0, 0, ws, reg))
           /\ UNCHANGED <<ws, closedIds, retries, nrun, restarted, ans>>
@@ -198,7 +202,7 @@ Kill(w) ==                                  \* external SIGKILL (no-op on a dead
   /\ LET wsx == [ws EXCEPT ![w].os = "dead"] IN ws' = wsx /\ ans' = <<0, 0>> /\ Simple("kill:" \o ToString(w), "kill", "ok", wsx, reg)
   /\ UNCHANGED <<plan, reg, closedIds, retries, poolClosed, nextKey, nrun, restarted, pc, todo, graceful>>
 Stick(w) ==                                 \* the user enqueues a never-ending input directly; a dead worker refuses it
-  /\ Idle /\ Go("stick:" \o ToString(w)) /\ w \in RegW /\ (Free => (Alive(w) /\ ~ws[w].stuck /\ ~poolClosed))
+  /\ Idle /\ Go("stick:" \o ToString(w)) /\ ~NoStuckAllowed /\ w \in RegW /\ (Free => (Alive(w) /\ ~ws[w].stuck /\ ~poolClosed))
   /\ LET wsx == IF Alive(w) THEN [ws EXCEPT ![w].stuck = TRUE] ELSE ws IN
      ws' = wsx /\ Simple("stick:" \o ToString(w), "stick", IF Alive(w) THEN "ok" ELSE "raised", wsx, reg)
   /\ UNCHANGED <<plan, ans, reg, closedIds, retries, poolClosed, nextKey, nrun, restarted, pc, todo, graceful>>
@@ -263,7 +267,8 @@ Next == \/ \E k \in Kinds : AddOk(k) \/ Attach(k)
         \/ (\E w \in W : CleanupWorker(w)) \/ CloseEnd \/ Interrupt
 Spec == Init /\ [][Next]_vars
 
-R0 == [scn |-> [force |-> force], obs |-> [steps |-> steps]]
+R0 == [scn |-> [force |-> force, ctimeout |-> plan.ctimeout],
+       obs |-> [created |-> IF NoneTimeoutRejected /\ plan.ctimeout = "none" THEN "raised" ELSE "ok", steps |-> steps]]
 AtRest == pc \in RestPcs
 TypeOK == /\ \A kw \in reg : kw[2] \in W
           /\ \A k \in Keys : Cardinality({kw \in reg : kw[1] = k}) = 1
@@ -273,6 +278,7 @@ Inv_RunIsolated      == AtRest => C09_RunIsolated(R0)
 Inv_NoWorkToDead     == AtRest => C09_NoWorkToDead(R0)
 Inv_RestartedGetWork == AtRest => C09_RestartedGetWork(R0)
 Inv_NoLeak           == AtRest => C09_NoLeak(R0)
+Inv_Configurable     == C09_Configurable(R0)
 
 \* ---- witnesses (expected violated) ----
 W_ClosedWithStuck == ~(poolClosed /\ \E w \in W : ws[w].stuck /\ IsProc(w) /\ w \in RegW)
